@@ -216,6 +216,9 @@ func Check(root, id, tier string, seed uint64) (*Result, error) {
 		cases = append(cases, C14Cases(fp, ForeignConfigs(fp), seed+77, tier, nr)...)
 		fm := MultiFile(fp, 2)
 		cases = append(cases, C14Cases(fm, []spec.Config{fm.Config}, seed+78, tier, nr)...)
+		// a request in which several selected types fail to build
+		bp := FailingProgram()
+		cases = append(cases, C14Cases(bp, []spec.Config{bp.Config}, seed+79, tier, nr)...)
 		for i, rp := range randoms {
 			cases = append(cases, C14Cases(rp, C14ConfigsFor(rp), seed+uint64(i)+1, tier, nr)...)
 		}
